@@ -4,6 +4,7 @@ import SafeNet.Proofs.ArgParse
 import SafeNet.Proofs.ArgFinal
 import SafeNet.Proofs.ArgLex
 import SafeNet.Proofs.Upgrade
+import SafeNet.Proofs.UnitFile
 /-!
 # C20 — upgraded services keep every setting, and antnode accepts what antctl writes
 
@@ -935,6 +936,467 @@ which splits at `,` first): accepted, but as two elements. -/
 example : lex activeTop activeSubs ["--network-contacts-url", "http://h/x?a=1,2", "evm-arbitrum-one"] =
     some [⟨some "network-contacts-url", .joined ["http://h/x?a=1", "2"]⟩, ⟨none, .one "evm-arbitrum-one"⟩] := by decide
 
+/-! ## The service level: system or user (audit C20-3) -/
+
+theorem levels_resolved :
+    ((upgradeUninstallLevel.subst viaData).subst viaAddLocals).norm = addInstallLevel.norm ∧
+    ((upgradeInstallLevel.subst viaData).subst viaAddLocals).norm = addInstallLevel.norm := by decide
+
+theorem evalSrc_recordOf (σ : Valuation) (s : Src) :
+    evalSrc (recordOf σ) s = evalSrc σ ((s.subst viaData).subst viaAddLocals).norm := by
+  rw [evalSrc_norm, evalSrc_subst, evalSrc_subst]; rfl
+
+/-- **upgrade_keeps_service_level.** `ServiceManager::upgrade` removes the old definition from, and writes
+the regenerated one to, the level (system / user) `add_node` installed the service at — for every option
+record. (A literal `false` in either call of `upgrade` makes this false: `levels_resolved` breaks.) -/
+theorem upgrade_keeps_service_level (σ : Valuation) :
+    upgradeLevels (recordOf σ) = (installLevel σ, installLevel σ) := by
+  unfold upgradeLevels installLevel
+  rw [evalSrc_recordOf, evalSrc_recordOf, levels_resolved.1, levels_resolved.2, evalSrc_norm]
+
+/-- Non-vacuity: a user-mode add is upgraded at user level, a root add at system level. -/
+example : upgradeLevels (recordOf (fun p => if p = ["options", "user_mode"] then .bool true else exampleRecord p)) =
+    (.bool true, .bool true) := by decide
+example : upgradeLevels (recordOf (fun p => if p = ["options", "user_mode"] then .bool false else exampleRecord p)) =
+    (.bool false, .bool false) := by decide
+
+/-! ## The daemon's restart writes service definitions too (audit C20-2)
+
+`rpc::restart_node_service` (antctld): with the peer id retained it uninstalls and re-installs the SAME
+service from its registry entry — a regeneration of the definition exactly like an upgrade; without, it
+installs a replacement service (new name, directories, ports) from the old entry's settings. -/
+
+/-- the port of the recorded listen address read as the recorded node port -/
+def viaListen : Path → Src
+  | ["~", "listenport"] => .var ["node_port"]
+  | p => .var p
+
+/-- What `on_start` establishes whenever the started node reports a listener: `get_antnode_port()` (the
+port of the recorded listen address) is the recorded `node_port`. -/
+def ListenPortRecorded (ρ : Valuation) : Prop := ρ ["~", "listenport"] = ρ ["node_port"]
+
+theorem through_viaListen (ρ : Valuation) (h : ListenPortRecorded ρ) : through viaListen ρ = ρ := by
+  funext p
+  unfold through viaListen
+  split
+  · simpa [evalSrc] using h.symm
+  · rfl
+
+def restartRetainResolved : List Entry :=
+  (installTable.map (Entry.subst viaRestartRetain)).map (Entry.subst viaListen)
+def upgradeOfEntryResolved : List Entry := upgradeTable.map (Entry.subst viaUpgradeOptions)
+
+theorem restart_tables_perm :
+    (restartRetainResolved.map Entry.norm).Perm (upgradeOfEntryResolved.map Entry.norm) := by decide
+
+/-- **restart_args_equiv.** For every registry entry whose recorded listen port is its node port, the
+definition the daemon regenerates when it restarts the service with its peer id retained launches the node
+with the same arguments as the definition `antctl upgrade` regenerates from that entry (hence, by
+`upgrade_args_equiv`, as the one written at installation, up to the pinned listener port). -/
+theorem restart_args_equiv (ρ : Valuation) (h : ListenPortRecorded ρ) :
+    (buildRestartRetain ρ).Perm (buildUpgrade ρ) := by
+  have hR : buildRestartRetain ρ = interp evmDisplay restartRetainResolved ρ := by
+    unfold buildRestartRetain restartRetainResolved
+    rw [interp_subst, interp_subst, through_viaListen ρ h]
+  have hU : buildUpgrade ρ = interp evmDisplay upgradeOfEntryResolved ρ := by
+    unfold buildUpgrade upgradeOfEntryResolved
+    rw [interp_subst]
+  rw [hR, hU, ← interp_norm evmDisplay restartRetainResolved, ← interp_norm evmDisplay upgradeOfEntryResolved]
+  exact interp_perm evmDisplay ρ restart_tables_perm
+
+def restartRetainCtxResolved : List (String × Src) :=
+  installCtx.map fun kv => (kv.1, (kv.2.subst viaRestartRetain).norm)
+def upgradeOfEntryCtxResolved : List (String × Src) :=
+  upgradeCtx.map fun kv => (kv.1, (kv.2.subst viaUpgradeOptions).norm)
+
+theorem restart_ctx_same_except_env :
+    restartRetainCtxResolved.filter (fun kv => kv.1 != "environment") =
+    upgradeOfEntryCtxResolved.filter (fun kv => kv.1 != "environment") := by decide
+
+/-- … with the same program, user, autostart, label; its environment is the registry-wide one (what an
+upgrade without `--env` uses). -/
+theorem restart_settings_equiv (ρ : Valuation) :
+    (restartRetainSettings ρ).filter (fun kv => kv.1 != "environment") =
+      (upgradeSettings ρ).filter (fun kv => kv.1 != "environment") ∧
+    (restartRetainSettings ρ).lookup "environment" = some (ρ ["~", "regenv"]) := by
+  have hR : restartRetainSettings ρ = restartRetainCtxResolved.map fun kv => (kv.1, evalSrc ρ kv.2) := by
+    simp [restartRetainSettings, ctxOf, restartRetainCtxResolved, evalSrc_subst, evalSrc_norm, Function.comp_def]
+  have hU : upgradeSettings ρ = upgradeOfEntryCtxResolved.map fun kv => (kv.1, evalSrc ρ kv.2) := by
+    simp [upgradeSettings, ctxOf, upgradeOfEntryCtxResolved, evalSrc_subst, evalSrc_norm, Function.comp_def]
+  refine ⟨?_, ?_⟩
+  · rw [hR, hU, List.filter_map, List.filter_map]
+    have h := restart_ctx_same_except_env
+    simp only [Function.comp_def] at h ⊢
+    rw [h]
+  · rw [hR, lookup_map_snd]
+    have : restartRetainCtxResolved.lookup "environment" = some (.var ["~", "regenv"]) := by decide
+    simp [this, evalSrc]
+
+/-- **restart_keeps_service_level.** The retained restart removes and re-installs at the level recorded
+for the service (the level `add_node` installed it at: `upgrade_keeps_service_level`). -/
+theorem restart_keeps_service_level (ρ : Valuation) : restartRetainLevels ρ = upgradeLevels ρ := by
+  have : restartRetainUninstallLevel = upgradeUninstallLevel ∧ restartRetainInstallLevel = upgradeInstallLevel := by decide
+  unfold restartRetainLevels upgradeLevels
+  rw [this.1, this.2]
+
+/-- The shape of the literal before the repair (`metrics_port: None`, both levels `false`). -/
+def oldRetainLiteral : List (String × Src) :=
+  restartRetainLiteral.map fun kv => if kv.1 = "metrics_port" then (kv.1, .const "None") else kv
+
+/-- a registry entry as a user-mode `add --metrics-port 13001 --owner bob` leaves it, started (port 4242) -/
+def restartWitnessEntry : Valuation :=
+  fun p => if p = ["~", "listenport"] then .opt (some [.plain "4242"])
+    else afterStart (recordOf (fun q =>
+      if q = ["metrics_free_port"] then .opt (some [.plain "13001"])
+      else if q = ["options", "user_mode"] then .bool true
+      else if q = ["options", "owner"] then .opt (some [.plain "bob"])
+      else exampleRecord q)) (some [.plain "4242"]) p
+
+/-- **Witness (the code before the repair).** With `metrics_port: None` in the literal the restarted
+service loses `--metrics-server-port` although the registry entry still records 13001 and the next upgrade
+writes it again; and with `install(ctx, false)` a user-mode service is re-installed at system level.
+Repaired in /repo (the recorded metrics port and level are passed). -/
+theorem restart_dropped_metrics_port_before_fix :
+    ListenPortRecorded restartWitnessEntry ∧
+    (interp evmDisplay installTable (through (viaLiteral oldRetainLiteral) restartWitnessEntry)).all
+      (fun it => it.flag != some "metrics-server-port") = true ∧
+    (buildUpgrade restartWitnessEntry).any (fun it => it.flag == some "metrics-server-port" && it.value == .one "13001") = true ∧
+    (buildRestartRetain restartWitnessEntry).any (fun it => it.flag == some "metrics-server-port" && it.value == .one "13001") = true ∧
+    evalSrc restartWitnessEntry (.const "false") ≠ (upgradeLevels restartWitnessEntry).2 := by
+  refine ⟨by unfold ListenPortRecorded; decide, by decide, by decide, by decide, by decide⟩
+
+/-! ### The replacement service (`retain_peer_id = false`) -/
+
+def replaceChanged : List String := ["root-dir", "log-output-dest", "port", "metrics-server-port"]
+def keepFlag (f : Option String) : Bool := match f with | some n => !replaceChanged.contains n | none => true
+def keepEntry (e : Entry) : Bool := keepFlag e.flag
+
+def restartReplaceResolved : List Entry := installTable.map (Entry.subst viaRestartReplace)
+
+theorem replace_tables_perm :
+    ((restartReplaceResolved.filter keepEntry).map Entry.norm).Perm
+      ((upgradeOfEntryResolved.filter keepEntry).map Entry.norm) := by decide
+
+/-- **restart_replacement_args_equiv.** The replacement service the daemon installs is launched with the
+arguments of the service it replaces, except exactly: the data and log directories (derived from the new
+name), the node port and the metrics port (a replacement gets none: the stopped original still owns
+them). In particular owner, peers arguments, network, rewards address, NAT flags are carried over. -/
+theorem restart_replacement_args_equiv (ρ : Valuation) :
+    ((buildRestartReplace ρ).filter fun it => keepFlag it.flag).Perm
+    ((buildUpgrade ρ).filter fun it => keepFlag it.flag) := by
+  have key : ∀ (T : List Entry), (interp evmDisplay T ρ).filter (fun it => keepFlag it.flag) =
+      interp evmDisplay (T.filter keepEntry) ρ := by
+    intro T
+    induction T with
+    | nil => rfl
+    | cons e T ih =>
+      simp only [interp] at ih ⊢
+      rw [List.filterMap_cons, List.filter_cons]
+      cases hev : evalEntry evmDisplay ρ e with
+      | none =>
+        simp only []
+        by_cases hk : keepEntry e = true
+        · rw [if_pos hk, List.filterMap_cons, hev]; exact ih
+        · rw [if_neg hk]; exact ih
+      | some it =>
+        have hfl : it.flag = e.flag := by
+          have := (evalEntry_some evmDisplay ρ e it hev).2
+          rw [this]
+        simp only []
+        rw [List.filter_cons]
+        by_cases hk : keepEntry e = true
+        · have hk' : keepFlag it.flag = true := by rw [hfl]; exact hk
+          rw [if_pos hk, List.filterMap_cons, hev, if_pos hk', ih]
+        · have hk' : ¬ keepFlag it.flag = true := by rw [hfl]; exact hk
+          rw [if_neg hk, if_neg hk', ih]
+  have hR : buildRestartReplace ρ = interp evmDisplay restartReplaceResolved ρ := by
+    unfold buildRestartReplace restartReplaceResolved
+    rw [interp_subst]
+  have hU : buildUpgrade ρ = interp evmDisplay upgradeOfEntryResolved ρ := by
+    unfold buildUpgrade upgradeOfEntryResolved
+    rw [interp_subst]
+  rw [hR, hU, key, key, ← interp_norm evmDisplay (restartReplaceResolved.filter keepEntry),
+    ← interp_norm evmDisplay (upgradeOfEntryResolved.filter keepEntry)]
+  exact interp_perm evmDisplay ρ replace_tables_perm
+
+/-- … and the registry entry recorded for the replacement regenerates, at ITS next upgrade, the definition
+the daemon installed it with (clause 1 for services created by the daemon), at the level it was installed. -/
+theorem replacement_upgrade_args_equiv (ρ : Valuation) :
+    (buildUpgrade (replaceRecordOf ρ)).Perm (buildRestartReplace ρ) ∧
+    upgradeLevels (replaceRecordOf ρ) = (evalSrc ρ restartReplaceInstallLevel, evalSrc ρ restartReplaceInstallLevel) := by
+  have hperm : (((upgradeTable.map (Entry.subst viaUpgradeOptions)).map (Entry.subst viaReplaceData)).map Entry.norm).Perm
+      (restartReplaceResolved.map Entry.norm) := by decide
+  have hU : buildUpgrade (replaceRecordOf ρ) =
+      interp evmDisplay ((upgradeTable.map (Entry.subst viaUpgradeOptions)).map (Entry.subst viaReplaceData)) ρ := by
+    unfold buildUpgrade replaceRecordOf
+    rw [interp_subst, interp_subst]
+  have hR : buildRestartReplace ρ = interp evmDisplay restartReplaceResolved ρ := by
+    unfold buildRestartReplace restartReplaceResolved
+    rw [interp_subst]
+  refine ⟨?_, ?_⟩
+  · rw [hU, hR, ← interp_norm evmDisplay restartReplaceResolved, ← interp_norm evmDisplay (List.map _ (List.map _ upgradeTable))]
+    exact interp_perm evmDisplay ρ hperm
+  · have h1 : (upgradeUninstallLevel.subst viaReplaceData).norm = restartReplaceInstallLevel.norm ∧
+        (upgradeInstallLevel.subst viaReplaceData).norm = restartReplaceInstallLevel.norm := by decide
+    unfold upgradeLevels replaceRecordOf
+    rw [← evalSrc_subst, ← evalSrc_subst, ← evalSrc_norm ρ (Src.subst _ upgradeUninstallLevel),
+      ← evalSrc_norm ρ (Src.subst _ upgradeInstallLevel), h1.1, h1.2, evalSrc_norm]
+
+/-! ## `antctl add --bootstrap-cache-dir` (audit C20-4) -/
+
+def cacheEntry : Entry := ⟨.isSome (.var cachePath), some "bootstrap-cache-dir", some (.var cachePath, .lossy)⟩
+theorem cache_entry_mem : cacheEntry ∈ installResolved := by decide
+
+/-- **user_bootstrap_cache_dir_is_written.** A `--bootstrap-cache-dir d` given to `antctl add` reaches the
+definition written at installation and the one regenerated at upgrade as `--bootstrap-cache-dir d`,
+whatever the service user's default directory is. (`intent` is phrased over `add_node`'s options; this is
+the step from antctl's command line to those options, read from `cmd::node::add`.) -/
+theorem user_bootstrap_cache_dir_is_written (σ : Valuation) (d : AStr) (dflt : Option AStr) :
+    (⟨some "bootstrap-cache-dir", .one d.show⟩ : Item) ∈ buildInstall (withCli σ addKeepsUserBootstrapCacheDir (some d) dflt) ∧
+    (⟨some "bootstrap-cache-dir", .one d.show⟩ : Item) ∈
+      buildUpgrade (recordOf (withCli σ addKeepsUserBootstrapCacheDir (some d) dflt)) := by
+  have hk : addKeepsUserBootstrapCacheDir = true := by decide
+  have hI : (⟨some "bootstrap-cache-dir", .one d.show⟩ : Item) ∈ buildInstall (withCli σ addKeepsUserBootstrapCacheDir (some d) dflt) := by
+    rw [buildInstall_eq]
+    simp only [interp, List.mem_filterMap]
+    refine ⟨cacheEntry, cache_entry_mem, ?_⟩
+    simp [cacheEntry, evalEntry, guardHolds, evalSrc, withCli, cliBootstrapCacheDir, hk, ival, asWord]
+  exact ⟨hI, (upgrade_args_equiv _).mem_iff.mpr hI⟩
+
+/-- **Witness (the code before the repair)**: `peers_args.bootstrap_cache_dir = bootstrap_cache_dir`
+unconditionally — in user mode (no default) the user's directory never reaches the definition although
+antctl accepted the option. Repaired in /repo. -/
+theorem user_bootstrap_cache_dir_was_overwritten :
+    (buildInstall (withCli exampleRecord false (some [.plain "/srv/cache"]) none)).all
+      (fun it => it.flag != some "bootstrap-cache-dir") = true := by decide
+
+/-! ## A LATER add rewrites the environment of EARLIER services (audit C20-5, known finding K-t-env-later-add) -/
+
+theorem withEnvLater_none (σ : Valuation) (provided prev : Option AStr) (out : AddOutcome) :
+    withEnvLater σ provided prev out none = withEnv σ provided prev out := rfl
+
+/-- environment of the definition regenerated at upgrade after a later add of OTHER services -/
+theorem upgrade_environment_later (σ : Valuation) (provided prev : Option AStr) (out : AddOutcome) (later : Option AStr) :
+    (upgradeSettings (recordOf (withEnvLater σ provided prev out later))).lookup "environment" =
+      some (.opt (envAtUpgradeLater σ provided prev out later)) := by
+  rw [upgradeSettings_eq, lookup_map_snd]
+  have : upgradeCtxResolved.lookup "environment" = some (.var ["#env"]) := by decide
+  simp [this, evalSrc, withEnvLater]
+
+/-- The full clause for the environment: the regenerated definition has the environment the service was
+installed with unless the upgrade is given `--env`. FALSE of the code (registry-wide environment). -/
+def UpgradeKeepsInstalledEnvironment : Prop :=
+  ∀ (σ : Valuation) (prev later : Option AStr) (out : AddOutcome),
+    (upgradeSettings (recordOf (withEnvLater σ none prev out later))).lookup "environment" =
+      (installSettings σ).lookup "environment"
+
+/-- **Witness.** `add --env A=1` (service 1), later `add --env B=2` (service 2), `upgrade`: service 1 is
+regenerated with `B=2`. -/
+theorem later_add_rewrites_earlier_environment : ¬ UpgradeKeepsInstalledEnvironment := by
+  intro h
+  have := h (fun p => if p = envPath then .opt (some [.plain "A=1"]) else exampleRecord p) none (some [.plain "B=2"]) .allInstalled
+  rw [upgrade_environment_later, install_environment] at this
+  revert this
+  decide
+
+/-- `_partial`: the clause holds when no later add of other services carried `--env` (hypothesis
+`later = none`) and the registry-wide environment is this add's one. -/
+theorem upgrade_environment_kept_partial (σ : Valuation) (prev env : Option AStr) (out : AddOutcome)
+    (henv : σ envPath = .opt env) (hreg : env.isSome ∨ prev = none) :
+    (upgradeSettings (recordOf (withEnvLater σ none prev out none))).lookup "environment" =
+      (installSettings σ).lookup "environment" := by
+  rw [withEnvLater_none]; exact upgrade_environment_kept σ prev env out henv hreg
+
+/-! ## The unit file: what systemd makes of the definition (audit C20-1, known finding K-t-unit-unquoted) -/
+open SafeNet.UnitFile
+
+/-- `ServiceInstallCtx.program` as the unit file shows it (`to_string_lossy`) -/
+def programOf (settings : List (String × Val)) : String :=
+  match settings.lookup "program" with
+  | some v => asWord evmDisplay v
+  | none => ""
+
+/-- What systemd starts for a definition rendered by the shipped backend: the executable, and antnode's
+reading of the re-tokenised arguments. `none`: the `ExecStart=` value contains a specifier, a variable, an
+escape, an unbalanced quote or a lone `;` (outcome not a function of the definition alone). -/
+def unitInterpret (program : String) (items : List Item) : Option (String × Except PErr Parsed) :=
+  (unitCommand (execStartValue program (argv items))).map fun pa => (pa.1, parseArgStrings pa.2)
+
+theorem program_same (σ : Valuation) : programOf (upgradeSettings (recordOf σ)) = programOf (installSettings σ) := by
+  unfold programOf
+  rw [installSettings_eq, upgradeSettings_eq, lookup_map_snd, lookup_map_snd]
+  have : upgradeCtxResolved.lookup "program" = installCtxResolved.lookup "program" := by decide
+  rw [this]
+
+theorem argv_all (P : String → Bool) (items : List Item) :
+    (argv items).all P = items.all fun it => it.words.all P := by
+  simp [argv, List.all_flatMap]
+
+theorem unitSafe_perm (program : String) {A B : List Item} (h : A.Perm B) :
+    UnitSafe program (argv A) = UnitSafe program (argv B) := by
+  simp only [UnitSafe, argv_all]
+  rw [h.all_eq]
+
+/-- **rendered_unit_interpreted_as_intended.** For every option record antctl can hand to `add_node`
+whose written strings are lex-safe and `UnitSafe` (program path and every argument string non-empty,
+without white space, quotes, backslash, `%`, `$`, not `;` alone): systemd, reading the unit file the shipped
+backend renders (unquoted `ExecStart={program} {args.join(" ")}`), starts exactly the installed program
+with arguments antnode interprets as the intended configuration — for the definition written at
+installation and for the one regenerated at upgrade. -/
+theorem rendered_unit_interpreted_as_intended (σ : Valuation) (v : String)
+    (hv : σ ["options", "evm_network"] = .evm v) (hmem : v ∈ evmDisplay.map (·.1)) (hσ : InputAccepted σ)
+    (hsafe : ValuesLexSafe (buildInstall σ) = true)
+    (hunit : UnitSafe (programOf (installSettings σ)) (argv (buildInstall σ)) = true) :
+    ∃ x, activeSubs.find? (fun x => x.1 == lookupD evmDisplay v) = some x ∧
+      unitInterpret (programOf (installSettings σ)) (buildInstall σ) =
+        some (programOf (installSettings σ), .ok ⟨intendedTop σ, some (x.2.1, intendedSub σ)⟩) ∧
+      unitInterpret (programOf (upgradeSettings (recordOf σ))) (buildUpgrade (recordOf σ)) =
+        some (programOf (installSettings σ), .ok ⟨intendedTop σ, some (x.2.1, intendedSub σ)⟩) := by
+  obtain ⟨x, hx, hI, hU⟩ := argv_build_is_intended σ v hv hmem hσ hsafe
+  have hunitU : UnitSafe (programOf (installSettings σ)) (argv (buildUpgrade (recordOf σ))) = true := by
+    rw [unitSafe_perm _ (upgrade_args_equiv σ)]; exact hunit
+  refine ⟨x, hx, ?_, ?_⟩
+  · simp only [unitInterpret, unitCommand_execStart _ _ hunit, Option.map_some, hI]
+  · rw [program_same]
+    simp only [unitInterpret, unitCommand_execStart _ _ hunitU, Option.map_some, hU]
+
+/-- … and each `Environment=` line is read back as the assignment it was written for, when neither string
+contains `"`, `\`, `%`, `$` or a line break. -/
+theorem rendered_environment_read_back (var val : String) (hk : envStringSafe var = true) (hv : envStringSafe val = true) :
+    environmentRead (environmentLine var val) = some [var ++ "=" ++ val] :=
+  environmentRead_line var val hk hv
+
+/-! ### `UnitSafe` reduced to the values, and to the user's strings -/
+
+def ivalUnitSafe : IVal → Bool
+  | .none => true
+  | .one s => wordSafe s
+  | .joined l => wordSafe (",".intercalate l)
+
+def ValuesUnitSafe (items : List Item) : Bool := items.all fun it => ivalUnitSafe it.value
+
+/-- every option name either builder writes is a safe word -/
+theorem flags_unit_safe :
+    installResolved.all (fun e => match e.flag with | some n => wordSafe ("--" ++ n) | none => true) = true := by decide
+
+/-- The user's strings are unit-safe (named hypothesis; decidable per record): directories, owner, RPC URL,
+peer and contact-URL lists as written. -/
+def UserStringsUnitSafe (σ : Valuation) : Prop :=
+  ∀ e ∈ installResolved, entryClass e = .user → ∀ it, evalEntry evmDisplay σ e = some it → ivalUnitSafe it.value = true
+
+/-- The typed settings and the subcommand word print without white space, quotes, `\`, `%`, `$` (digits,
+dots, colons, hex digits, the fixed words): trusted `Display` shapes, checked on every accepted record by
+the oracle of component `antnode_accepts`. -/
+def TypedValuesPlain (σ : Valuation) : Prop :=
+  ∀ e ∈ installResolved, entryClass e ≠ .user → ∀ it, evalEntry evmDisplay σ e = some it → ivalUnitSafe it.value = true
+
+/-- **unit_safe_of_user_strings.** `UnitSafe` is a hypothesis about the program path and the user's own
+strings only. -/
+theorem unit_safe_of_user_strings (σ : Valuation) (program : String) (hp : wordSafe program = true)
+    (ht : TypedValuesPlain σ) (hu : UserStringsUnitSafe σ) :
+    UnitSafe program (argv (buildInstall σ)) = true ∧ UnitSafe program (argv (buildUpgrade (recordOf σ))) = true := by
+  suffices h : UnitSafe program (argv (buildInstall σ)) = true from
+    ⟨h, by rw [unitSafe_perm _ (upgrade_args_equiv σ)]; exact h⟩
+  rw [buildInstall_eq]
+  simp only [UnitSafe, hp, Bool.true_and, argv_all, List.all_eq_true]
+  intro it hit
+  simp only [interp, List.mem_filterMap] at hit
+  obtain ⟨e, he, hev⟩ := hit
+  have hval : ivalUnitSafe it.value = true := by
+    by_cases hc : entryClass e = .user
+    · exact hu e he hc it hev
+    · exact ht e he hc it hev
+  have hflag := List.all_eq_true.mp flags_unit_safe e he
+  have hfl : it.flag = e.flag := by rw [(evalEntry_some evmDisplay σ e it hev).2]
+  intro w hw
+  simp only [Item.words, List.mem_append] at hw
+  rcases hw with hw | hw
+  · rw [hfl] at hw
+    cases hf : e.flag with
+    | none => simp [hf] at hw
+    | some n =>
+      simp only [hf, List.mem_singleton] at hw
+      subst hw
+      simpa [hf] using hflag
+  · cases hiv : it.value with
+    | none => simp [hiv, IVal.words] at hw
+    | one s => simp only [hiv, IVal.words, List.mem_singleton] at hw; subst hw; simpa [hiv, ivalUnitSafe] using hval
+    | joined l => simp only [hiv, IVal.words, List.mem_singleton] at hw; subst hw; simpa [hiv, ivalUnitSafe] using hval
+
+/-- Non-vacuity: a record with ordinary paths is `UnitSafe`, and the theorem applies to it. -/
+def unitRecord : Valuation := fun p =>
+  if p = ["service_data_dir_path"] then .opt (some [.plain "/var/antctl/services/antnode1"])
+  else if p = ["service_log_dir_path"] then .opt (some [.plain "/var/log/antnode/antnode1"])
+  else if p = ["service_antnode_path"] then .opt (some [.plain "/var/antctl/services/antnode1/antnode"])
+  else if p = ["options", "rewards_address"] then .opt (some [.plain "0x03B770D9cD32077cC0bF330c13C114a87643B124"])
+  else if p = ["options", "home_network"] then .bool false
+  else if p = ["options", "owner"] then .opt (some [.plain "bob"])
+  else exampleRecord p
+
+theorem unit_record_safe :
+    UnitSafe (programOf (installSettings unitRecord)) (argv (buildInstall unitRecord)) = true ∧
+    ValuesLexSafe (buildInstall unitRecord) = true := by decide
+
+example : ∃ x, unitInterpret (programOf (installSettings unitRecord)) (buildInstall unitRecord) =
+    some ("/var/antctl/services/antnode1/antnode", .ok ⟨intendedTop unitRecord, some (x, intendedSub unitRecord)⟩) := by
+  obtain ⟨x, _, h, _⟩ := rendered_unit_interpreted_as_intended unitRecord "Custom" rfl (by decide)
+    ⟨by unfold InputConflictFree; decide, by decide⟩ unit_record_safe.2 unit_record_safe.1
+  exact ⟨x.2.1, h⟩
+
+/-! ### Outside `UnitSafe`: the witnesses of K-t-unit-unquoted -/
+
+/-- what `unitInterpret` found: the executable, the error of antnode's parse (if any), the owner and the
+home-network switch as parsed -/
+def unitOutcome (r : Option (String × Except PErr Parsed)) : Option (String × Option PErr × PVal × PVal) :=
+  r.map fun pr => (pr.1, errOf pr.2,
+    (match pr.2 with | .ok p => p.top "owner" | .error _ => .absent),
+    (match pr.2 with | .ok p => p.top "home_network" | .error _ => .absent))
+
+/-- `antctl add --log-dir-path "/var/log/my logs"`: a directory with a blank -/
+def blankLogDirRecord : Valuation := fun p =>
+  if p = ["service_log_dir_path"] then .opt (some [.plain "/var/log/my logs/antnode1"]) else unitRecord p
+
+/-- `antctl add --data-dir-path "/mnt/my disk"`: the program path has the blank too -/
+def blankDataDirRecord : Valuation := fun p =>
+  if p = ["service_data_dir_path"] then .opt (some [.plain "/mnt/my disk/antnode1"])
+  else if p = ["service_antnode_path"] then .opt (some [.plain "/mnt/my disk/antnode1/antnode"])
+  else unitRecord p
+
+/-- `antctl add --owner "bob --home-network"` -/
+def flagInOwnerRecord : Valuation := fun p =>
+  if p = ["options", "owner"] then .opt (some [.plain "bob --home-network"]) else unitRecord p
+
+/-- **Witness: a path with a blank is REJECTED.** Item for item (and string for string: `Command::args`)
+the arguments are the intended ones and antnode accepts them; rendered into the unit file and read back by
+systemd, `logs/antnode1` is a stray word (antnode: `unrecognized subcommand`) — the installed and the
+upgraded service never start. With the blank in the data directory systemd is even told to execute
+`/mnt/my`. -/
+theorem unit_blank_in_path_rejected :
+    (∃ x, parseArgStrings (argv (buildInstall blankLogDirRecord)) =
+      .ok ⟨intendedTop blankLogDirRecord, some (x, intendedSub blankLogDirRecord)⟩) ∧
+    unitOutcome (unitInterpret (programOf (installSettings blankLogDirRecord)) (buildInstall blankLogDirRecord)) =
+      some ("/var/antctl/services/antnode1/antnode", some .untokenisable, .absent, .absent) ∧
+    unitOutcome (unitInterpret (programOf (upgradeSettings (recordOf blankLogDirRecord))) (buildUpgrade (recordOf blankLogDirRecord))) =
+      some ("/var/antctl/services/antnode1/antnode", some .untokenisable, .absent, .absent) ∧
+    (unitOutcome (unitInterpret (programOf (installSettings blankDataDirRecord)) (buildInstall blankDataDirRecord))).map (·.1) =
+      some "/mnt/my" := by
+  refine ⟨?_, by decide +kernel, by decide +kernel, by decide +kernel⟩
+  obtain ⟨x, _, h, _⟩ := argv_build_is_intended blankLogDirRecord "Custom" rfl (by decide)
+    ⟨by unfold InputConflictFree; decide, by decide⟩ (by decide)
+  exact ⟨x.2.1, h⟩
+
+/-- **Witness: an owner with a blank is ACCEPTED AND MISREAD.** Intended: owner `bob --home-network`, no
+home-network mode. What the service runs with after systemd has read the unit file: owner `bob`,
+home-network mode ON — at installation and after every upgrade. -/
+theorem unit_owner_accepted_and_misread :
+    intendedTop flagInOwnerRecord "owner" = .one "bob --home-network" ∧
+    intendedTop flagInOwnerRecord "home_network" = .absent ∧
+    unitOutcome (unitInterpret (programOf (installSettings flagInOwnerRecord)) (buildInstall flagInOwnerRecord)) =
+      some ("/var/antctl/services/antnode1/antnode", none, .one "bob", .set) ∧
+    unitOutcome (unitInterpret (programOf (upgradeSettings (recordOf flagInOwnerRecord))) (buildUpgrade (recordOf flagInOwnerRecord))) =
+      some ("/var/antctl/services/antnode1/antnode", none, .one "bob", .set) := by
+  refine ⟨by decide +kernel, by decide +kernel, by decide +kernel, by decide +kernel⟩
+
 #print axioms SafeNet.Props.C20.upgrade_args_equiv
 #print axioms SafeNet.Props.C20.upgrade_settings_equiv
 #print axioms SafeNet.Props.C20.upgrade_environment
@@ -959,5 +1421,21 @@ example : lex activeTop activeSubs ["--network-contacts-url", "http://h/x?a=1,2"
 #print axioms SafeNet.Props.C20.custom_network_converted_as_intended
 #print axioms SafeNet.Props.C20.word_selects_same_network
 #print axioms SafeNet.Props.C20.log_format_values_accepted
+#print axioms SafeNet.Props.C20.upgrade_keeps_service_level
+#print axioms SafeNet.Props.C20.restart_args_equiv
+#print axioms SafeNet.Props.C20.restart_settings_equiv
+#print axioms SafeNet.Props.C20.restart_keeps_service_level
+#print axioms SafeNet.Props.C20.restart_dropped_metrics_port_before_fix
+#print axioms SafeNet.Props.C20.restart_replacement_args_equiv
+#print axioms SafeNet.Props.C20.replacement_upgrade_args_equiv
+#print axioms SafeNet.Props.C20.user_bootstrap_cache_dir_is_written
+#print axioms SafeNet.Props.C20.user_bootstrap_cache_dir_was_overwritten
+#print axioms SafeNet.Props.C20.later_add_rewrites_earlier_environment
+#print axioms SafeNet.Props.C20.upgrade_environment_kept_partial
+#print axioms SafeNet.Props.C20.rendered_unit_interpreted_as_intended
+#print axioms SafeNet.Props.C20.rendered_environment_read_back
+#print axioms SafeNet.Props.C20.unit_safe_of_user_strings
+#print axioms SafeNet.Props.C20.unit_blank_in_path_rejected
+#print axioms SafeNet.Props.C20.unit_owner_accepted_and_misread
 
 end SafeNet.Props.C20
